@@ -579,6 +579,12 @@ def r166(facts, res):
         if r in sets and any(b.calls_named('push', loops[h]) for h in loops if bb in loops[h]):
             keep = r
     if keep is None:
+        # by role instead: the work list is the set elements are taken OUT of (remove / take / drain); the keep-set is the other one
+        removed = {b.op_root(t['args'][0])[0] for bb, t in b.calls() if cname(t) in ('remove', 'take', 'drain', 'pop') and t['args']}
+        cand = [l for l in sets if l not in removed]
+        if len(cand) == 1 and len(sets) == 2:
+            keep = cand[0]
+    if keep is None:
         res.lost(R, 'cannot identify the keep-set of gc')
         return
     work = [l for l in sets if l != keep]
